@@ -252,7 +252,13 @@ func (c *Client) connect() error {
 
 	// Client is ok, we now open XMPP session with TLS negotiation if possible and session resume or binding
 	// depending on state.
-	if c.Session, err = NewSession(c, state); err != nil {
+	session, err := NewSession(c, state)
+	if session != nil {
+		// A failed attempt that returns no session must not wipe the state of the previous one (it is
+		// what the next attempt resumes from)
+		c.Session = session
+	}
+	if err != nil {
 		// Try to get the stream close tag from the server.
 		go func() {
 			for {
